@@ -46,6 +46,7 @@ def check(model, tier):
     _sqlplace.r_sort_mapping(ctx, "R17.11")
     _sqlplace.r08_2_compound_guard(ctx, rule="R17.13")  # strip() hands back the marker's target and whether a projection went with it
     _sqlplace.r_slice_keeps_its_sort(ctx, "R17.14")
+    _sqlplace.r_subquery_keeps_its_slots(ctx, "R17.15")
     _sqlemit.r02_2_join_payload(ctx, rule="R17.9")  # a join keeps a stripped operand only when nothing it hides can shadow
     from ..rules.foundation import run_foundation
 
